@@ -462,8 +462,21 @@ def plan(c: dict, op: dict):
         free = [n for n in POOL if n not in c_tmp_ids]
         outs = free[:k] if len(free) >= k else [f"zo{j}" for j in range(k)]
         omode = ""
-        if op.get("clash_output") and ids:
+        clash = op.get("clash_output")
+        if clash is True:
+            clash = "existing"
+        if clash == "existing" and ids:
             outs = [*outs[:-1], list(ids)[op["t"]["i"] % len(ids)]]
+            omode = "+clashing_output"
+        elif clash == "time":
+            outs = [*outs[:-1], "time"]  # fails only after the surrogate name (and earlier outputs) went in
+            omode = "+clashing_output"
+        elif clash == "duplicate":
+            outs = [*outs, outs[0]]
+            k = len(outs)
+            omode = "+clashing_output"
+        elif clash == "own_name":
+            outs = [*outs[:-1], name]
             omode = "+clashing_output"
         args = resolve_args(c, op["args"], op["wide"], exclude=name)
         args = [a for a in args if a not in outs] or ["time"]
@@ -775,7 +788,7 @@ def _op(draw) -> dict:
     if o == "update_reaction":
         op["which"] = draw(st.sampled_from(["fn", "args", "stoich", "fn+args", "fn+stoich", "args+stoich", "fn+args+stoich"]))
     if o == "add_surrogate":
-        op["clash_output"] = draw(st.sampled_from([False] * 6 + [True]))
+        op["clash_output"] = draw(st.sampled_from([False] * 8 + ["existing", "time", "duplicate", "own_name"]))
         op["via_kwargs"] = draw(st.booleans())
     if o == "update_surrogate":
         op["which"] = draw(st.sampled_from(["args", "stoich", "outputs", "object"]))
